@@ -5,6 +5,7 @@ use tokio::time::timeout;
 use tracing::Instrument;
 
 use dns_types::protocol::types::*;
+use dns_types::zones::types::Zone;
 
 use crate::context::Context;
 use crate::local::{resolve_local, LocalResolutionResult};
@@ -113,6 +114,44 @@ async fn resolve_forwarding_notimeout<'a>(
         // Propagate SOA RR for NXDOMAIN / NODATA responses
         let soa_rr = get_nxdomain_nodata_soa(question, &response, 0).cloned();
         let rrs = response.answers;
+
+        // What the forwarder says about a name that an authoritative local
+        // zone owns is not used: if its answer leads into such a name, keep the
+        // records before it and resolve the rest of the chain ourselves.
+        let zones = context.zones;
+        if let Some(i) = rrs.iter().position(|rr| {
+            rr.name != question.name && zones.get(&rr.name).is_some_and(Zone::is_authoritative)
+        }) {
+            let cname_question = Question {
+                name: rrs[i].name.clone(),
+                qtype: question.qtype,
+                qclass: question.qclass,
+            };
+            let prefix = rrs[..i].to_vec();
+            context.cache.insert_all(&prefix);
+            prioritising_merge(&mut combined_rrs, prefix);
+
+            context.push_question(question);
+            let answer = match resolve_forwarding_notimeout(context, &cname_question)
+                .instrument(tracing::error_span!("resolve_forwarding", %cname_question))
+                .await
+            {
+                Ok(resolved) => {
+                    let soa_rr = resolved.soa_rr().cloned();
+                    combined_rrs.append(&mut resolved.rrs());
+                    Ok(ResolvedRecord::NonAuthoritative {
+                        rrs: combined_rrs,
+                        soa_rr,
+                    })
+                }
+                Err(_) => Err(ResolutionError::DeadEnd {
+                    question: cname_question,
+                }),
+            };
+            context.pop_question();
+            return answer;
+        }
+
         context.cache.insert_all(&rrs);
         prioritising_merge(&mut combined_rrs, rrs);
         Ok(ResolvedRecord::NonAuthoritative {
